@@ -542,12 +542,16 @@ class Agent(dbus.service.Object):
         :type item: :py:class:`BundleItem`
         '''
         mtu = self._config.mtu_default
+        # A message cannot be longer than its 20-bit length field tells
+        msg_limit = 4 + 2 ** 20 - 1
+        if mtu is None or mtu > msg_limit:
+            mtu = msg_limit
         data = item.file.read()
         total_len = len(data)
 
         self.__logger.info('Transfer %d size %d relative to MTU %s',
                            item.transfer_id, total_len, mtu)
-        if mtu is None or total_len < (mtu - 4):
+        if total_len < (mtu - 4):
             # no segmentation
             msg = MessageHead()/BundlePdu(data)
             yield msg
